@@ -231,7 +231,10 @@ class PolicyGen:
             # just above the range, far above it, and values that equal a valid index modulo 2^29 / 2^30 / 2^31 (the
             # load offset 16 + 8*index is computed in 32 bits)
             arg = rng.choice([6, 6, 6, 7, 8, 100, M32, 1 << 31, (1 << 29) + rng.randint(0, 5), (1 << 30) + rng.randint(0, 5),
-                              (3 << 29) + rng.randint(0, 5), (1 << 31) + rng.randint(0, 5), (7 << 29) + rng.randint(0, 5), M32 - 1])
+                              (3 << 29) + rng.randint(0, 5), (1 << 31) + rng.randint(0, 5), (7 << 29) + rng.randint(0, 5), M32 - 1,
+                              # a valid index in the low byte / low 16 bits only
+                              256 + rng.randint(0, 5), 512 + rng.randint(0, 5), 0xFFFFFF00 + rng.randint(0, 5), 65536 + rng.randint(0, 5),
+                              0x7FFFFF00 + rng.randint(0, 5), 128 + rng.randint(0, 5)])
         if bad in ("op", "both"):
             op = "Other%d" % rng.randint(0, 5)
         if bad == "both":
@@ -336,6 +339,9 @@ class PolicyGen:
                     at = nwc.index(base)
                     nwc.insert(rng.choice([at, at + 1, len(nwc)]), dict(name=base["name"], conds=rel))
                 groups.append(dict(action=self.action(), names=names, nwc=nwc))
+            if rng.random() < 0.15:
+                # a group without any name between / in front of / behind the others (it emits no code)
+                groups.insert(rng.randint(0, len(groups)), dict(action=self.action(), names=[], nwc=[]))
             if rng.random() < 0.4 and len(groups) >= 2:
                 # same syscall in several groups
                 g0 = groups[0]
